@@ -1903,7 +1903,35 @@ func ruleSinceOnlyPromDuration(r *Run) {
 			}
 			good = false
 			o.Fail(r.pos(c.Pos()), "--since can come from %s, which is not model.ParseDuration", calleeName(c))
+		case *ssa.Parameter:
+			// a helper's parameter: what its callers pass
+			h := x.Parent()
+			idx := -1
+			for i, q := range h.Params {
+				if q == x {
+					idx = i
+				}
+			}
+			found := false
+			if h != fn && idx >= 0 {
+				for _, g := range pkgClosure(fn) {
+					for _, c := range callsIn(g) {
+						if staticCallee(c) == h && idx < len(c.Common().Args) {
+							found = true
+							back(c.Common().Args[idx], d+1)
+						}
+					}
+				}
+			}
+			if !found {
+				good = false
+				o.Fail(r.pos(fn.Pos()), "--since can be %s", describe(v, 0))
+			}
 		case *ssa.BinOp:
+			// constant arithmetic (6 * time.Hour written with a named constant) is a constant
+			if _, ok := constOf(x); ok {
+				return
+			}
 			good = false
 			o.Fail(r.pos(x.Pos()), "--since can be computed as %s (not the duration model.ParseDuration returned)", describe(x, 0))
 		case *ssa.Call:
